@@ -56,8 +56,8 @@ def _a1(ctx, R="C14-A1"):
     ctx.floor(R, 6)
 
 
-def _a2_a4(ctx):
-    R = "C14-A2"
+def _a2_a4(ctx, R2="C14-A2", R4="C14-A4"):
+    R = R2
     ctx.doc(R, "dirty rounds only feed filters; the returned join is the final round's")
     js = ctx.func(JP, "join_strategy_2", R)
     cfg = ctx.cfg(js)
@@ -90,7 +90,7 @@ def _a2_a4(ctx):
     ctx.check(ok, R, js, jn[0] if jn else js.node, "the round does not join the round's pruned groups with the current filter", "join(cur_compressed, filter_func)")
     ctx.floor(R, 6)
 
-    R = "C14-A4"
+    R = R4
     ctx.doc(R, "exceptions are swallowed only on non-final rounds")
     hs = [n for n in cfg.nodes if n.kind == "except"]
     ctx.require(len(hs) == 1, R, "except handler")
